@@ -92,6 +92,8 @@ pub const T0: i64 = 1_700_000_000;
 pub const EVENT_IDS: [&str; 4] = ["ev-a", "ev-b", "ev-c", "ev-d"];
 pub const CHANNELS: [&str; 2] = ["channel-0", "channel-1"];
 pub const CURRENCY_PAIRS: [&str; 3] = ["BTC/USD", "ETH/USD", "TIA/USD"];
+/// BTC/USD and ETH/USD are markets of the Aspen genesis; the others are not
+pub const MARKET_PAIRS: [&str; 4] = ["BTC/USD", "ETH/USD", "TIA/USD", "FOO/BAR"];
 pub const REMOTE_CHANNELS: [&str; 2] = ["channel-10", "channel-11"];
 
 // ---------------------------------------------------------------------------------------------
@@ -156,6 +158,8 @@ pub enum AAction {
     /// (client upgrade with empty proofs; `client` selects an existing or a missing client):
     /// fatal before Blackburn, a "failed but included" transaction after it
     BadIbcRelay { client: u8 },
+    /// create (0) / update (1) / remove (2) a market of the oracle market map
+    MarketsChange { kind: u8, pair: u8 },
 }
 
 #[derive(Clone, Debug, Serialize, Deserialize, PartialEq, Eq)]
@@ -475,6 +479,12 @@ fn sudo_bundleable_action(bias: &Bias) -> BoxedStrategy<AAction> {
                 .prop_map(|(add, pair)| AAction::CurrencyPairsChange { add, pair })
                 .boxed(),
         ),
+        (
+            bias.currency_pairs.div_ceil(2),
+            (0_u8..3, 0_u8..MARKET_PAIRS.len() as u8)
+                .prop_map(|(kind, pair)| AAction::MarketsChange { kind, pair })
+                .boxed(),
+        ),
     ];
     choices.retain(|(w, _)| *w > 0);
     proptest::strategy::Union::new_weighted(choices).boxed()
@@ -784,7 +794,8 @@ fn group_of(a: &AAction) -> u8 {
         AAction::IbcRelayerChange { .. }
         | AAction::FeeAssetChange { .. }
         | AAction::FeeChange { .. }
-        | AAction::CurrencyPairsChange { .. } => 2,
+        | AAction::CurrencyPairsChange { .. }
+        | AAction::MarketsChange { .. } => 2,
         AAction::InitBridge { .. } | AAction::BridgeSudoChange { .. } => 3,
         _ => 4,
     }
@@ -928,6 +939,7 @@ pub fn concretize(atx: &ATx, view: &View, pre: &Dump, built_so_far: &[BuiltTx], 
             | AAction::FeeAssetChange { .. }
             | AAction::FeeChange { .. }
             | AAction::CurrencyPairsChange { .. }
+            | AAction::MarketsChange { .. }
             | AAction::ValidatorUpdate { .. } => key_of(&view.sudo).unwrap_or(0),
             AAction::IbcRelayerChange { .. } => key_of(&view.ibc_sudo).unwrap_or(0),
             _ => {
@@ -1293,6 +1305,38 @@ pub fn concretize(atx: &ATx, view: &View, pre: &Dump, built_so_far: &[BuiltTx], 
                 })
             }
             AAction::BadIbcRelay { client } => Action::Ibc(bad_ibc_relay(*client)),
+            AAction::MarketsChange { kind, pair } => {
+                use astria_core::oracles::price_feed::market_map::v2::{
+                    Market,
+                    ProviderConfig,
+                    Ticker,
+                };
+                if repair && signer != view.sudo {
+                    continue;
+                }
+                let text = MARKET_PAIRS[*pair as usize % MARKET_PAIRS.len()];
+                let market = Market {
+                    ticker: Ticker {
+                        currency_pair: text.parse().unwrap(),
+                        decimals: 6 + *pair % 4,
+                        min_provider_count: 1,
+                        enabled: *kind != 1 || *pair % 2 == 0,
+                        metadata_json: String::new(),
+                    },
+                    provider_configs: vec![ProviderConfig {
+                        name: "verif-provider".to_string(),
+                        off_chain_ticker: text.replace('/', ""),
+                        normalize_by_pair: None,
+                        invert: false,
+                        metadata_json: String::new(),
+                    }],
+                };
+                Action::MarketsChange(match *kind % 3 {
+                    0 => action::MarketsChange::Creation(vec![market]),
+                    1 => action::MarketsChange::Update(vec![market]),
+                    _ => action::MarketsChange::Removal(vec![market]),
+                })
+            }
             AAction::ValidatorUpdate { key, power } => {
                 if repair && signer != view.sudo {
                     continue;
